@@ -347,7 +347,7 @@ def judge(ctx, a, res, sample=False):
             "calls on it stay blocked" % (v.get("window") or {}).get("span"),
             witness)
         return
-    if verdict == "blocked":
+    if verdict in ("blocked", "spinning"):
         ctx.count("transport_inactive_after_loss")
         ctx.count("hangs_at_quiescence")
         for c in v.get("callers") or []:
@@ -362,8 +362,11 @@ def judge(ctx, a, res, sample=False):
             who = api
             if 0 < len(blocked) < ncall:
                 who += " (one of %d waiters woken, the rest not)" % ncall
+            if verdict == "spinning":
+                where = "+".join((v.get("window") or {}).get("spin_states") or [where])
             ctx.violation(
-                "%s blocked in %s after transport death (%s)" % (who, where, TIMING_TEXT[a["timing"]]),
+                "%s %s in %s after transport death (%s)" % (
+                    who, "blocked" if verdict == "blocked" else "livelocked", where, TIMING_TEXT[a["timing"]]),
                 "the transport is inactive, the link drained, every other thread parked, and the call has not "
                 "returned for %ss with an unchanged stack" % (v.get("window") or {}).get("span"),
                 witness)
